@@ -118,6 +118,33 @@ func c11RunOp(w *c11World, set *jet.Set, op c11Op, handles map[string]*jet.Templ
 		}
 		handles[op.N] = t
 		return c11Version(t), nil
+	case "PA":
+		// Set.Parse of a template extending op.N: the lookup goes through the gates, nothing is cached
+		t, e := set.Parse("/parsed_"+op.N, `{{extends "`+op.N+`"}}`)
+		if e != nil {
+			return -1, e
+		}
+		// the version of the layout it captured shows when it is rendered
+		var pb bytes.Buffer
+		if e := t.Execute(&pb, nil, nil); e != nil {
+			return -1, e
+		}
+		if m := c11VerRe.FindStringSubmatch(pb.String()); m != nil {
+			return atoi(m[1]), nil
+		}
+		return -1, fmt.Errorf("garbled output %q", pb.String())
+	case "EXI":
+		w.gate("exec")
+		t := handles["inc:"+op.N]
+		var b bytes.Buffer
+		if e := t.Execute(&b, nil, nil); e != nil {
+			return -1, e
+		}
+		m := c11VerRe.FindStringSubmatch(b.String())
+		if m == nil || b.String() != fmt.Sprintf("%s#%s:g=%s", op.N, m[1], m[2]) {
+			return -1, fmt.Errorf("garbled output %q", b.String())
+		}
+		return 10*atoi(m[1]) + atoi(m[2]), nil
 	case "EX":
 		w.gate("exec")
 		t := handles[op.N]
@@ -152,6 +179,19 @@ func c11RunOp(w *c11World, set *jet.Set, op c11Op, handles map[string]*jet.Templ
 		return 0, nil
 	}
 	return -1, fmt.Errorf("unknown op")
+}
+
+// templates whose body is {{include "n"}}, parsed without touching loader or cache
+func c11Includers(set *jet.Set) map[string]*jet.Template {
+	h := map[string]*jet.Template{}
+	for _, n := range []string{"a", "b"} {
+		t, err := set.Parse("/includer_"+n, `{{include "`+n+`"}}`)
+		if err != nil {
+			panic(err)
+		}
+		h["inc:"+n] = t
+	}
+	return h
 }
 
 func c11NewWorld(gated bool) (*c11World, *jet.Set) {
@@ -191,7 +231,7 @@ func c11Replay(i int, raw json.RawMessage) Result {
 		w.current = gs[p]
 		go func(p int) {
 			defer close(gs[p].done)
-			handles := map[string]*jet.Template{}
+			handles := c11Includers(set)
 			for _, op := range v.Prog[p] {
 				r, err := c11RunOp(w, set, op, handles)
 				if err != nil {
@@ -275,14 +315,16 @@ func c11Race(a []string) int {
 				wg.Add(1)
 				go func(ops []c11Op) {
 					defer wg.Done()
-					handles := map[string]*jet.Template{}
+					handles := c11Includers(set)
 					for _, op := range ops {
 						res, err := c11RunOp(w, set, op, handles)
 						switch {
 						case err != nil:
 							report("%v: %v", op, err)
-						case op.K == "GT" && (res < 1 || res > 3):
+						case (op.K == "GT" || op.K == "PA") && (res < 1 || res > 3):
 							report("GetTemplate returned version %d", res)
+						case op.K == "EXI" && (res/10 < 1 || res/10 > 3 || !allowedG[res%10]):
+							report("Execute(include) rendered %d", res)
 						case op.K == "EX" && (res/10 != c11Version(handles[op.N]) || !allowedG[res%10]):
 							report("Execute rendered %d, not the output of this template alone", res)
 						case op.K == "LG" && !allowedG[res]:
